@@ -302,10 +302,8 @@ class _NumericOperationsImpl(OperationsBlock):
     @validate_core
     def remainder(self, x, y):
         x, y = promote(x, y)
-        if isinstance(x.dtype, (dtypes.Integral, dtypes.NullableIntegral)):
-            # integer Mod(fmod=0) takes the sign of the divisor, like Python's %
-            return binary_op(x, y, lambda x, y: opx.mod(x, y, fmod=0))
-        # floating point Mod must use fmod=1 (sign of the dividend): correct the sign
+        # Mod(fmod=1) takes the sign of the dividend (C fmod): correct the sign afterwards.
+        # (Integer Mod(fmod=0) would do, but onnxruntime's kernel traps on INT_MIN % -1.)
         rem = binary_op(x, y, lambda x, y: opx.mod(x, y, fmod=1))
         wrong_sign = ndx.logical_and(rem != 0, (rem < 0) != (y < 0))
         return ndx.where(wrong_sign, rem + y, rem)
